@@ -25,7 +25,7 @@ _clock = time.perf_counter     # never the patched time.time
 class Result:
     """What one simulated run reports."""
     __slots__ = ("violations", "stats", "faults", "probes", "vtime", "steps", "sig", "nontrivial",
-                 "digest", "sample", "states", "xdigest")
+                 "digest", "sample", "states", "xdigest", "scenario")
 
     def __init__(self):
         self.violations = []       # [(property, clause, shape, message)]
@@ -40,6 +40,7 @@ class Result:
         self.sample = None         # human-readable rendering of the scenario
         self.states = set()        # abstract states / interleaving signatures (ints)
         self.xdigest = None        # digest that must also agree across PYTHONHASHSEED values (default: digest)
+        self.scenario = None       # JSON-able explicit scenario, for engines that can execute one directly
 
     def viol(self, prop, clause, shape, message):
         self.violations.append((prop, clause, shape, str(message)[:1500]))
@@ -109,6 +110,30 @@ def replay_tape(prop, tier, data):
     tape = Tape(data=data)
     res = eng.run(tape, prop, tier)
     return res, list(tape.used)
+
+
+def shrink_scenario(prop, tier, scn, clause, deadline, max_runs=400):
+    """Second, structure-aware stage for engines that execute explicit scenarios: greedily apply the engine's one-step
+    simplifications (drop pairs, bars, script entries, single operations, features) while the same clause fails."""
+    eng = _engine_for(prop)
+    runs = 0
+    progress = True
+    while progress and runs < max_runs and _clock() < deadline:
+        progress = False
+        for cand in eng.simplifications(scn):
+            if runs >= max_runs or _clock() > deadline:
+                break
+            runs += 1
+            try:
+                r = eng.run_scenario(cand, prop, tier)
+            except Exception:
+                continue
+            f = r.first(prop)
+            if f is not None and f[1] == clause:
+                scn = cand
+                progress = True
+                break
+    return scn, runs
 
 
 # ------------------------------------------------------------------ findings
@@ -232,6 +257,15 @@ def check(prop, tier, base_seed, runs, budget_s, workers, meta, batch=None, out=
         if fv is None or fv[1] != clause:       # cannot happen; keep the original
             res, small_used = replay_tape(prop, tier, used2)
             fv = res.first(prop)
+        scenario_json = None
+        eng_ = _engine_for(prop)
+        if res.scenario is not None and hasattr(eng_, "simplifications"):
+            scn_small, n2 = shrink_scenario(prop, tier, res.scenario, clause, max(shrink_deadline, _clock() + 20))
+            r2 = eng_.run_scenario(scn_small, prop, tier)
+            f2 = r2.first(prop)
+            if f2 is not None and f2[1] == clause:
+                res, fv, scenario_json = r2, f2, scn_small
+                nruns += n2
         known = match_finding(findings, prop, fv[1], fv[2])
         os.makedirs(REPLAY_DIR, exist_ok=True)
         path = os.path.join(REPLAY_DIR, f"{prop}-{fv[1]}-{seed}.json")
@@ -239,6 +273,7 @@ def check(prop, tier, base_seed, runs, budget_s, workers, meta, batch=None, out=
             json.dump(dict(property=prop, tier=tier, seed=seed, run_index=idx, base_seed=base_seed,
                            clause=fv[1], shape=fv[2], message=fv[3], digest=res.digest,
                            tape=small_used, original_tape_len=len(used), shrink_runs=nruns,
+                           scenario_json=scenario_json,
                            scenario=res.sample,
                            replay=f"./check {prop} --replay {path}"), f, indent=1, default=str)
         if known:
@@ -332,7 +367,11 @@ def replay_file(path, out=sys.stdout):
     with open(path) as f:
         doc = json.load(f)
     prop = doc["property"]
-    res, used = replay_tape(prop, doc.get("tier", "quick"), doc["tape"])
+    if doc.get("scenario_json") is not None:
+        # explicit minimised scenario (the tape regenerates the un-minimised one)
+        res = _engine_for(prop).run_scenario(doc["scenario_json"], prop, doc.get("tier", "quick"))
+    else:
+        res, used = replay_tape(prop, doc.get("tier", "quick"), doc["tape"])
     fv = res.first(prop)
     if fv is None:
         print(f"[replay] {prop}: no violation (digest {res.digest})", file=out)
@@ -366,6 +405,15 @@ def minimise_file(path, max_runs=6000, seconds=600, out=sys.stdout):
     small, n = shrink(doc["tape"], still, max_runs=max_runs, deadline=_clock() + seconds, clock=_clock)
     res, used = replay_tape(prop, tier, small)
     fv = res.first(prop)
+    eng_ = _engine_for(prop)
+    if res.scenario is not None and hasattr(eng_, "simplifications"):
+        scn_small, n2 = shrink_scenario(prop, tier, res.scenario, clause, _clock() + seconds, max_runs=3000)
+        r2 = eng_.run_scenario(scn_small, prop, tier)
+        f2 = r2.first(prop)
+        if f2 is not None and f2[1] == clause:
+            res, fv = r2, f2
+            doc["scenario_json"] = scn_small
+            n += n2
     doc.update(tape=used, message=fv[3], shape=fv[2], digest=res.digest, scenario=res.sample,
                shrink_runs=doc.get("shrink_runs", 0) + n)
     with open(path, "w") as f:
